@@ -133,6 +133,19 @@ fn rt_core_h<T: FontWrite + Validate + PartialEq + Debug>(
     }
 }
 
+/// Stats::oracle_failure keeps only the first 50 entries: list at most two instances per stable key so that
+/// a frequent known finding cannot push an unrelated failure off the list (all instances are still counted).
+fn fail(st: &mut Stats, key: &str, v: serde_json::Value) {
+    let ck = format!("failures-by-key.{}", key);
+    let seen = st.counters.get(&ck).cloned().unwrap_or(0);
+    st.count(&ck);
+    if seen < 2 {
+        st.oracle_failure(v);
+    } else {
+        st.count("oracle_failures");
+    }
+}
+
 fn record(st: &mut Stats, group: &str, key: String, r: &Rt, nbytes: usize) {
     let (key, instance) = match r {
         Rt::ValueDiff(_, Some(k)) => (k.to_string(), Some(key)),
@@ -145,7 +158,8 @@ fn record(st: &mut Stats, group: &str, key: String, r: &Rt, nbytes: usize) {
         st.nontrivial(&key);
     }
     if r.is_failure() {
-        st.oracle_failure(json!({"key": key, "instance": instance, "outcome": r.kind(), "detail": r.detail().chars().take(600).collect::<String>()}));
+        let v = json!({"key": key, "instance": instance, "outcome": r.kind(), "detail": r.detail().chars().take(600).collect::<String>()});
+        fail(st, &key, v);
     } else if !matches!(r, Rt::Ok) {
         let list = st.v.entry("not_valid_examples").or_insert_with(|| json!([]));
         if let Some(a) = list.as_array_mut() {
@@ -801,6 +815,167 @@ fn values_handwritten_conversions(st: &mut Stats) {
     }
 }
 
+// ---------------------------------------------------------------------------------------------
+// Device tables: the owned `Device` stores the PACKED words, so `==` after a round trip cannot see a
+// decoder defect.  "Every field has the value that was written" is therefore also checked on the
+// logical field: the i8 deltas handed to `Device::new` must come back from the reader's `Device::iter`.
+// ---------------------------------------------------------------------------------------------
+fn device_decode_check(st: &mut Stats, key: &str, vals: &[i8], start: u16, got: Result<Option<(u16, u16, Vec<i8>)>, String>) {
+    st.evaluations += 1;
+    let got = match got {
+        Ok(g) => g,
+        Err(p) => {
+            // the reader's decoder panicked (overflow-checks profile).  One stable key for the one known cause:
+            // an 8-bit delta of -128 is negated in i8 (read-fonts/src/tables/layout.rs iter_packed_values).
+            st.count("device-decode.panic");
+            let k = if vals.contains(&-128) && p.contains("negate with overflow") { "device-decode:delta-minus-128-negate-overflow".to_string() } else { format!("device-decode:{}", key) };
+            let v = json!({"key": k, "instance": key, "outcome": "Device::iter panicked", "panic": p, "written": vals, "start_size": start});
+            fail(st, &k, v);
+            return;
+        }
+    };
+    let end = start + (vals.len() as u16 - 1);
+    match got {
+        Some((s, e, d)) if s == start && e == end && d == vals => {
+            st.count("device-decode.ok");
+            st.nontrivial(key);
+        }
+        other => {
+            st.count("device-decode.differs");
+            let k = format!("device-decode:{}", key);
+            let v = json!({"key": k, "outcome": "decoded deltas differ from the written ones", "written": vals, "start_size": start, "reread": format!("{:?}", other).chars().take(300).collect::<String>()});
+            fail(st, &k, v);
+        }
+    }
+}
+
+fn values_devices(st: &mut Stats, rng: &mut Rng) {
+    use wt::layout::*;
+    use write_fonts::read::tables as rt;
+    let dec = |d: &rt::layout::DeviceOrVariationIndex| -> Option<(u16, u16, Vec<i8>)> {
+        match d {
+            rt::layout::DeviceOrVariationIndex::Device(d) => Some((d.start_size(), d.end_size(), d.iter().collect())),
+            _ => None,
+        }
+    };
+    let mut n_dev = 0u64;
+    for (bits, lo, hi) in [(2u32, -2i8, 1i8), (4, -8, 7), (8, -128, 127), (7, -127, 126)] {
+        for len in 1usize..=17 {
+            let mut pats: Vec<Vec<i8>> = vec![
+                (0..len).map(|i| if i % 2 == 0 { lo } else { hi }).collect(),
+                (0..len).map(|i| if i % 2 == 0 { hi } else { lo }).collect(),
+                vec![lo; len],
+                // -1 (all ones) and a small negative in every slot, one extreme to pin the format
+                (0..len).map(|i| if i == len / 2 { lo } else { -1 }).collect(),
+                (0..len).map(|i| if i == 0 { hi } else if i % 3 == 0 { lo + 1 } else { -1 - (i as i8 % 2) }).collect(),
+                // every slot position negative in turn is covered by the rotations of a ramp
+                (0..len).map(|i| lo.wrapping_add((i as i32 * ((hi as i32 - lo as i32) / 3 + 1) % (hi as i32 - lo as i32 + 1)) as i8)).collect(),
+            ];
+            pats.push((0..len).map(|_| rng.range(lo as i64, hi as i64) as i8).collect());
+            for (pi, vals) in pats.iter().enumerate() {
+                let start = match (len + pi) % 5 {
+                    0 => 0u16,
+                    1 => 1,
+                    2 => 9,
+                    3 => 65534 - (len as u16 - 1), // end_size = 65534
+                    _ => 65535 - (len as u16 - 1), // end_size = 65535
+                };
+                let end = start + (len as u16 - 1);
+                let key = format!("Device:{}bit:len{}:pat{}:start{}", bits, len, pi, start);
+                n_dev += 1;
+                // end_size = 65535: the reader's DeltaFormat::value_count computes (end + 1).saturating_sub(start) in
+                // u16, one short, so the last word is not read when len % per_word == 1 (finding; one stable key)
+                let vkey = |ty: &str| if end == 65535 { "device:end-size-65535-value-count".to_string() } else { format!("value:{}{}", ty, key) };
+                // standalone
+                let d = Device::new(start, end, vals);
+                if let Some(b) = rt_value(st, &vkey(""), &d) {
+                    let got = catch(AssertUnwindSafe(|| rt::layout::Device::read(FontData::new(&b)).ok().map(|d| (d.start_size(), d.end_size(), d.iter().collect::<Vec<i8>>()))));
+                    device_decode_check(st, &key, vals, start, got);
+                }
+                let rev: Vec<i8> = vals.iter().rev().cloned().collect();
+                let dv = |v: &[i8]| DeviceOrVariationIndex::Device(Device::new(start, end, v));
+                // inside a ValueRecord (x placement = vals, y advance = reversed)
+                {
+                    use wt::gpos::*;
+                    let mut r = ValueRecord::new().with_x_placement(3).with_x_placement_device(dv(vals)).with_y_advance_device(dv(&rev));
+                    unify_formats(&mut [&mut r]);
+                    let t = SinglePosFormat1::new(CoverageTable::format_1(vec![gid(2)]), r);
+                    if let Some(b) = rt_value(st, &vkey("SinglePosFormat1:"), &t) {
+                        if let Ok(t) = rt::gpos::SinglePosFormat1::read(FontData::new(&b)) {
+                            let od = t.offset_data();
+                            let vr = t.value_record();
+                            device_decode_check(st, &format!("ValueRecord.x_placement_device:{}", key), vals, start, catch(AssertUnwindSafe(|| vr.x_placement_device(od).and_then(|r| r.ok()).as_ref().and_then(dec))));
+                            device_decode_check(st, &format!("ValueRecord.y_advance_device:{}", key), &rev, start, catch(AssertUnwindSafe(|| vr.y_advance_device(od).and_then(|r| r.ok()).as_ref().and_then(dec))));
+                        }
+                    }
+                    // Anchor format 3 (x = vals, y = reversed)
+                    let a = AnchorFormat3::new(-5, 6, Some(dv(vals)), Some(dv(&rev)));
+                    if let Some(b) = rt_value(st, &vkey("AnchorFormat3:"), &a) {
+                        if let Ok(t) = rt::gpos::AnchorFormat3::read(FontData::new(&b)) {
+                            device_decode_check(st, &format!("AnchorFormat3.x_device:{}", key), vals, start, catch(AssertUnwindSafe(|| t.x_device().and_then(|r| r.ok()).as_ref().and_then(dec))));
+                            device_decode_check(st, &format!("AnchorFormat3.y_device:{}", key), &rev, start, catch(AssertUnwindSafe(|| t.y_device().and_then(|r| r.ok()).as_ref().and_then(dec))));
+                        }
+                    }
+                }
+                // CaretValue format 3
+                {
+                    use wt::gdef::*;
+                    let c = CaretValueFormat3::new(-77, dv(vals));
+                    if let Some(b) = rt_value(st, &vkey("CaretValueFormat3:"), &c) {
+                        if let Ok(t) = rt::gdef::CaretValueFormat3::read(FontData::new(&b)) {
+                            device_decode_check(st, &format!("CaretValueFormat3.device:{}", key), vals, start, catch(AssertUnwindSafe(|| t.device().ok().as_ref().and_then(dec))));
+                        }
+                    }
+                }
+            }
+        }
+    }
+    st.add("device.tables", n_dev);
+}
+
+// COLR transforms with all matrix entries pairwise distinct; name strings with astral characters
+fn values_distinct_fields(st: &mut Stats) {
+    {
+        use wt::colr::*;
+        let fx = |v: f64| Fixed::from_f64(v);
+        let leaf = || Paint::solid(3, F2Dot14::from_f32(0.5));
+        let aff = Affine2x3::new(fx(1.25), fx(-0.5), fx(0.75), fx(2.0), fx(10.0), fx(-20.5));
+        let vaff = VarAffine2x3::new(fx(-1.5), fx(0.25), fx(3.0), fx(0.125), fx(-7.0), fx(8.5), 42);
+        rt_value(st, "value:Paint:transform-distinct", &Paint::transform(leaf(), aff.clone()));
+        rt_value(st, "value:Paint:var_transform-distinct", &Paint::var_transform(leaf(), vaff.clone()));
+        rt_value(st, "value:Paint:translate", &Paint::translate(leaf(), FWord::new(11), FWord::new(-12)));
+        rt_value(st, "value:Paint:var_translate", &Paint::var_translate(leaf(), FWord::new(13), FWord::new(-14), 15));
+        rt_value(st, "value:Paint:scale", &Paint::scale(leaf(), F2Dot14::from_f32(0.25), F2Dot14::from_f32(-1.5)));
+        rt_value(st, "value:Paint:scale_around_center", &Paint::scale_around_center(leaf(), F2Dot14::from_f32(0.25), F2Dot14::from_f32(-1.5), FWord::new(21), FWord::new(-22)));
+        rt_value(st, "value:Paint:var_scale_around_center", &Paint::var_scale_around_center(leaf(), F2Dot14::from_f32(0.75), F2Dot14::from_f32(1.5), FWord::new(23), FWord::new(-24), 25));
+        // inside a whole COLR v1
+        let mut c = Colr::new(0, None, None, 0);
+        c.base_glyph_list = Some(BaseGlyphList::new(2, vec![BaseGlyphPaint::new(gid(7), Paint::transform(Paint::glyph(leaf(), gid(9)), aff)), BaseGlyphPaint::new(gid(8), Paint::var_transform(leaf(), vaff))])).into();
+        c.clip_list = Some(ClipList::new(1, 1, vec![Clip::new(gid(7), gid(8), ClipBox::format_1(FWord::new(-1), FWord::new(-2), FWord::new(30), FWord::new(40)))])).into();
+        rt_value(st, "value:Colr:v1-transforms-distinct", &c);
+        let cl = VarColorLine::new(Extend::Reflect, 2, vec![VarColorStop::new(F2Dot14::from_f32(0.25), 1, F2Dot14::from_f32(0.5), 100), VarColorStop::new(F2Dot14::from_f32(0.75), 2, F2Dot14::from_f32(1.0), 101)]);
+        rt_value(st, "value:Paint:var_radial-distinct", &Paint::var_radial_gradient(cl, FWord::new(1), FWord::new(-2), UfWord::new(3), FWord::new(4), FWord::new(-5), UfWord::new(6), 7));
+    }
+    {
+        use wt::name::*;
+        let rec = |pid: u16, eid: u16, lid: u16, nid: u16, s: &str| NameRecord::new(pid, eid, lid, NameId::new(nid), s.to_string().into());
+        let mut n = Name::default();
+        // UTF-16 platforms (Unicode 0/x, Windows 3/1 and 3/10) with astral characters: two code units each
+        n.name_record = vec![
+            rec(0, 4, 0, 1, "𝒳𝒴 😀"),
+            rec(0, 4, 0, 2, "😀"),
+            rec(1, 0, 0, 1, "Mac only"),
+            rec(3, 1, 0x409, 1, "a😀b𝒳c"),
+            rec(3, 1, 0x409, 4, "𐀀"),
+            rec(3, 10, 0x409, 1, "tail 𝒳"),
+        ];
+        rt_value(st, "value:Name:astral-utf16", &n);
+        let mut n1 = n.clone();
+        n1.lang_tag_record = Some(vec![LangTagRecord::new("en-😀".to_string().into()), LangTagRecord::new("𝒳".to_string().into()), LangTagRecord::new("plain".to_string().into())]);
+        rt_value(st, "value:Name:astral-lang-tags", &n1);
+    }
+}
+
 fn values_misc(st: &mut Stats, rng: &mut Rng) {
     // maxp 0.5 / 1.0
     {
@@ -1296,7 +1471,9 @@ fn shards(st: &mut Stats, cw: &mut CaseWriter, rng: &mut Rng, thorough: bool) {
 }
 
 fn main() {
-    silence_panics();
+    if std::env::var("C04_SHOW_PANICS").is_err() {
+        silence_panics();
+    }
     let args: Vec<String> = std::env::args().collect();
     let thorough = tier_is_thorough(&args);
     let seed = seed_from_env();
@@ -1317,6 +1494,8 @@ fn main() {
     values_misc(&mut st, &mut rng);
     values_gpos_value_records(&mut st);
     values_handwritten_conversions(&mut st);
+    values_devices(&mut st, &mut rng);
+    values_distinct_fields(&mut st);
     shards(&mut st, &mut cw, &mut rng, thorough);
     let shards = cw.finish();
     let _ = &mut cw;
